@@ -114,6 +114,8 @@ func (n *ProtoNode) CidBuilder() cid.Builder {
 func (n *ProtoNode) SetCidBuilder(builder cid.Builder) error {
 	if builder == nil {
 		n.builder = v0CidPrefix
+		// the CID computed with the previous builder is stale now
+		n.cached = cid.Undef
 		return nil
 	}
 	switch b := builder.(type) {
